@@ -332,6 +332,11 @@ func readHTTPRequest(req *http.Request) (*FederationRequest, error) { // nolint:
 		if result.fields.Signatures == nil {
 			result.fields.Signatures = map[spec.ServerName]map[gomatrixserverlib.KeyID]string{origin: {key: sig}}
 		} else {
+			if previous, ok := result.fields.Signatures[origin][key]; ok && previous != sig {
+				// One key makes one signature of one request. Keeping the last
+				// header would make the verdict depend on the header order.
+				return nil, fmt.Errorf("gomatrixserverlib: different signatures for one key in X-Matrix authorization headers")
+			}
 			result.fields.Signatures[origin][key] = sig
 		}
 	}
